@@ -120,6 +120,8 @@ HistLine(r) ==
             /\ NzValid(P.c, r.nz) /\ NzIsOut(P.c, r.nz, m.out)
             \* the last frame's output is the abstract histogram of the frame
             /\ (m.pc = "endframe" /\ I # {-1}) => NzIsHist(P.c, r.nz, I)
+            \* file output: "write projection data for each time frame": the header of frame f's file carries that frame
+            /\ Has(r, "hdrFrames") => (r.hdrFrames = 1 /\ r.hdrStart = T.frames[m.f][1] /\ r.hdrEnd = T.frames[m.f][2])
          THEN m ELSE Rej
     [] r.e = "End" ->
          IF m.pc = "failed" THEN (IF r.err THEN [m EXCEPT !.pc = "done"] ELSE Rej)
@@ -171,7 +173,7 @@ ConfigOk(r) ==
   /\ l < Len(TraceLog) /\ TraceLog[l + 1].e = "Stream" /\ Len(TraceLog[l + 1].recs) = r.len
   /\ LegalConfig(tc) /\ ~TruncSingleRD(tc) /\ ~tc.ge
   /\ LegalFrames(pp)
-  /\ r.e = "Config" => (r.maxSegProc >= -1 /\ (r.segIM = -1 \/ r.segIM >= 1) /\ (r.tofIM = -1 \/ r.tofIM >= 1))
+  /\ r.e = "Config" => (r.maxSegProc >= -1 /\ (r.segIM = -1 \/ r.segIM >= 1) /\ (r.tofIM = -1 \/ r.tofIM >= 1) /\ (r.fileOut => r.fresh))
   /\ r.e = "GConfig" => (r.numSubsets >= 1 /\ (r.xm => XmOk(r, tc)))
 
 \* gradient executions: GConfig, Stream, Out (histogram of the frame's prompts), Sens ..., Grad ..., End
